@@ -466,6 +466,85 @@ def main(argv):
                                              dict(physics=phys, ops=[list(map(str, o)) for o in ops], kind=KINDS[k],
                                                   impl=dict(props=sv[KINDS[k]], slots=islots), model=dict(props=mprops, slots=mslots)))
                         break
+        # ================= "analysis either uses exactly that association or refuses to run"
+        # electrostatics, boundary properties with distinct fixed voltages (10 V x order of creation) on two lines and the arc; after the
+        # history the problem is saved and analysed in the same session, and the saved file is analysed in a fresh session: the potential next
+        # to every entity tells which property each analysis applied there
+        nana = 36 if ck.tier == "quick" else 300
+        ents_a = [("seg", 0), ("seg", 1), ("arc", 0)]
+        probes = {("seg", 0): (2.0, 0.02), ("seg", 1): (2.0, 3.98), ("arc", 0): (4.5, 2.0)}
+        fixed_ = []
+        for e_ in ents_a:
+            # a property is assigned, deleted, and its NAME comes back (added again with other values / another property renamed to it)
+            fixed_.append([("add", "bdry", "A"), ("add", "bdry", "B"), ("assign", e_, "prop", "A"), ("del", "bdry", "A"), ("add", "bdry", "A")])
+            fixed_.append([("add", "bdry", "A"), ("add", "bdry", "B"), ("assign", e_, "prop", "A"), ("del", "bdry", "A"), ("rename", "bdry", "B", "A")])
+        for t in range(nana):
+            seq, have, created = [], [], 0
+            L = rng.randint(3, 9)
+            tries = 0
+            if t < len(fixed_):
+                seq, tries = list(fixed_[t]), 10 ** 9
+            while len(seq) < L and tries < 200:
+                tries += 1
+                r = rng.random()
+                if r < 0.3 or not have:
+                    n = rng.choice(NAMES)
+                    if n in have:
+                        continue
+                    seq.append(("add", "bdry", n)); have.append(n)
+                elif r < 0.65:
+                    seq.append(("assign", rng.choice(ents_a), "prop", rng.choice(have + [None])))      # existing names only (or none)
+                elif r < 0.85:
+                    n = rng.choice(have)
+                    seq.append(("del", "bdry", n)); have.remove(n)
+                else:
+                    o = rng.choice(have)
+                    n = rng.choice([x for x in NAMES if x not in have] or [None])
+                    if n is None:
+                        continue
+                    seq.append(("rename", "bdry", o, n)); have[have.index(o)] = n
+            d = os.path.join(work, "ana%d" % t)
+            os.makedirs(d)
+            lines = lua_setup("e") + ['ei_addmaterial("air",1,1,0)', "ei_selectlabel(2,2)", 'ei_setblockprop("air",1,0,0)', "ei_clearselected()",
+                                      'ei_addpointprop("gnd",0,0)', "ei_selectnode(2,1)", 'ei_setnodeprop("gnd",0,"<None>")', "ei_clearselected()"]
+            cur = {}
+            for op in seq:
+                if op[0] == "add":
+                    created += 1
+                    lines.append('ei_addboundprop(%s,%d,0,0,0,0)' % (lua_str(op[2]), 10 * created))
+                else:
+                    lines += lua_op("e", op, cur)
+            pr = "".join(',eo_getpointvalues(%g,%g)' % probes[e_] for e_ in ents_a)
+            lines += ['ei_saveas("h.fee")', 'ei_saveas("w.fee")', "ei_analyze(1)", "ei_loadsolution()"] + \
+                     ['v%d = eo_getpointvalues(%g,%g)' % (k_, probes[e_][0], probes[e_][1]) for k_, e_ in enumerate(ents_a)] + \
+                     ['print("@@S",v0,v1,v2)']
+            open(os.path.join(d, "a.lua"), "w").write("\n".join(lines) + "\n")
+            r1 = subprocess.run([os.path.join(build, "cfemm", "bin", "femmcli"), "--lua-script=a.lua"], cwd=d, stdout=subprocess.PIPE, stderr=subprocess.STDOUT,
+                                text=True, timeout=300, errors="replace")
+            stats["analyze_checked"] += 1
+            ck.case(("analysis", str(seq)), nontrivial=any(o[0] in ("del", "rename") for o in seq))
+            if not os.path.exists(os.path.join(d, "h.fee")):
+                ck.violation("femmcli-failed", "femmcli failed before saving the problem of an analysis history: %s" % r1.stdout[-300:], dict(ops=[list(map(str, o)) for o in seq]))
+                continue
+            m1 = re.search(r"@@S\s+(\S+)\s+(\S+)\s+(\S+)", r1.stdout)
+            if not m1:
+                stats["analyze_refusals"] += 1        # the session refused (or failed) to analyse: allowed by the property
+                continue
+            open(os.path.join(d, "b.lua"), "w").write("\n".join(['open("h.fee")', "ei_analyze(1)", "ei_loadsolution()"] +
+                     ['v%d = eo_getpointvalues(%g,%g)' % (k_, probes[e_][0], probes[e_][1]) for k_, e_ in enumerate(ents_a)] + ['print("@@S",v0,v1,v2)']) + "\n")
+            r2 = subprocess.run([os.path.join(build, "cfemm", "bin", "femmcli"), "--lua-script=b.lua"], cwd=d, stdout=subprocess.PIPE, stderr=subprocess.STDOUT,
+                                text=True, timeout=300, errors="replace")
+            m2 = re.search(r"@@S\s+(\S+)\s+(\S+)\s+(\S+)", r2.stdout)
+            if not m2:
+                ck.violation("analysis:saved-file-refused", "the problem was analysed in the session that built it, but the file it saved is refused / fails in a fresh session: %s"
+                             % " ".join(r2.stdout[-300:].split()), dict(ops=[list(map(str, o)) for o in seq], lua=lines))
+                continue
+            va, vb = [float(x) for x in m1.groups()], [float(x) for x in m2.groups()]
+            sc_ = max([abs(x) for x in va + vb] + [1.0])
+            if any(abs(a_ - b_) > 1e-6 * sc_ for a_, b_ in zip(va, vb)):
+                ck.violation("analysis:other-association", "after the history %s the analysis run in the session applies other boundary properties than the file it saved: "
+                             "potentials next to line 0, line 1, the arc are %s in the session and %s when the saved file is analysed" % ([list(map(str, o)) for o in seq], va, vb),
+                             dict(ops=[list(map(str, o)) for o in seq], lua=lines))
     finally:
         shutil.rmtree(work, ignore_errors=True)
     ck.notes["input_distribution"] = stats
